@@ -371,8 +371,14 @@ def large_cases(draw, tier):
     n = [draw(st.integers(2, nmax)) for _ in range(d)]
     rmax = draw(st.sampled_from([1, 2, 3]))
     r = [1] + [draw(st.integers(1, rmax)) for _ in range(d - 1)] + [1]
-    return {"n": n, "r": r, "seed": draw(gen.seeds), "fam": draw(st.sampled_from(["gauss", "smallint", "positive"])),
-            "I": [[draw(st.integers(0, k - 1)) for k in n] for _ in range(4)], "c": draw(st.sampled_from([2.5, -1.0, 0.5, 3]))}
+    shared = draw(st.integers(0, 2)) == 0
+    if shared:
+        # chain-referenced tensor: the SAME ndarray object at every interior position (a caller building [A] + [B]*(d-2) + [C])
+        n = [n[0]] * d
+        r = [1] + [r[1]] * (d - 1) + [1]
+    return {"n": n, "r": r, "seed": draw(gen.seeds), "fam": draw(st.sampled_from(["gauss", "smallint", "positive"])), "shared": shared,
+            "jrep": draw(st.integers(1, d - 2)), "I": [[draw(st.integers(0, k - 1)) for k in n] for _ in range(4)],
+            "c": draw(st.sampled_from([2.5, -1.0, 0.5, 3]))}
 
 
 def chain(mats):
@@ -401,6 +407,12 @@ def prop_large(case, ctx):
             Y.append(G)
         return Y
     Y, Y2 = mk(), mk()
+    if case.get("shared"):
+        B = Y[1]
+        Y = [Y[0]] + [B] * (d - 2) + [Y[-1]]
+        Y2 = list(Y)                                  # shares every core object with Y ...
+        Y2[case["jrep"]] = B * 1.25 + 0.125           # ... except one perturbed core inside the run
+        ctx.label("shared_core_objects")
     nelem = 1
     for k in n:
         nelem *= k
@@ -432,6 +444,7 @@ def prop_large(case, ctx):
         cmp(got[j], [G[:, ik, :] for G, ik in zip(Y, i)], [np.abs(G[:, ik, :]) for G, ik in zip(Y, i)], "get_many (huge tensor)", ex)
     kr = lambda A, B: np.einsum('aib,cid->acbd', A, B).reshape(A.shape[0] * B.shape[0], A.shape[2] * B.shape[2])
     cmp(ctx.lib(teneva.mul_scalar, Y, Y2), [kr(A, B) for A, B in zip(Y, Y2)], [kr(np.abs(A), np.abs(B)) for A, B in zip(Y, Y2)], "mul_scalar (huge tensor)", ex)
+    cmp(ctx.lib(teneva.mul_scalar, Y2, Y), [kr(A, B) for A, B in zip(Y2, Y)], [kr(np.abs(A), np.abs(B)) for A, B in zip(Y2, Y)], "mul_scalar (huge tensor, swapped)", ex)
     nr = ctx.lib(teneva.norm, Y)
     g = chain([kr(A, A) for A in Y]); ga = chain([kr(np.abs(A), np.abs(A)) for A in Y])
     ctx.check(math.sqrt(max(g - K * EPS * ga, 0.0)) * (1 - 1e-12) <= nr <= math.sqrt(g + K * EPS * ga) * (1 + 1e-12), "norm (huge tensor)", got=float(nr), ref=math.sqrt(max(g, 0.0)))
